@@ -467,7 +467,7 @@ pub fn gen(rng: &mut Rng, thorough: bool, out: &mut Vec<String>) {
     out.push(format!("conv json_bfe_de {}", f(&digits32(&(BigUint::one() << 64)))));
     out.push(format!("conv json_bfe_de {}", f(&digits32(&(BigUint::one() << 70)))));
 
-    let n = if thorough { 400_000 } else { 5_000 };
+    let n = if thorough { 2_000_000 } else { 5_000 };
     for _ in 0..n {
         let d = cdigest(rng);
         match rng.below(30) {
